@@ -47,6 +47,7 @@ import Proofs.LiftSuccess
 import Proofs.LiftSplit
 import Proofs.InsertSuccess
 import Proofs.JoinPointSuccess
+import Proofs.RetypeSuccess
 namespace PM.C12
 open PM
 
@@ -1482,6 +1483,123 @@ theorem joinPoint_needs_guard : joinPoint cexSchema cexDoc 3 (-1) = some (some 3
     *after* it; from inside the second blockquote of `exDoc2` it answers 10 (the end of the document), where `can_join`
     says `None` -/
 example : joinPoint exSchema exDoc2 7 0 = some (some 10) ∧ canJoin exSchema exDoc2 10 = some none := ⟨rfl, rfl⟩
+
+/-! ### an approved change of type applies: `can_change_type` / `set_node_markup`
+
+    `can_change_type(doc, pos, type)` is `parent.can_replace_with(index, index + 1, type)`.  For a non-leaf node
+    `set_node_markup(pos, type, attrs, marks)` then emits `ReplaceAroundStep(pos, pos + size, pos + 1, pos + size - 1,
+    Slice([new empty node], 0, 0), 1, structure=True)` (`retypeStep`, PM/TypePlan.lean).  The unguarded statement
+      `canChangeType S doc pos ty = some true → ∃ doc', S.apply (retypeStep pos (pos + node.size) newNode) doc = .ok doc'`
+    is **false** for model and code alike: `can_change_type` does not ask whether the new type accepts the node's children
+    (`changeTypeCex` below: a paragraph with text changed into a blockquote; the real `set_node_markup` raises
+    `ValueError("Invalid content for node type blockquote")` by its own test, the step itself fails "Content does not fit
+    in gap").  `changeTypeGuard` (PM/InsertGuard.lean): the new type accepts the children, the parent allows the new
+    node's marks. -/
+
+/-- **`can_change_type` approves ∧ `changeTypeGuard` ⇒ `node_at(pos)` is the node after `pos` and the step
+    `set_node_markup` emits for it applies, giving a schema-valid document** (valid normal-form document; the node after
+    `pos` a non-leaf node; the new node `type.create(attrs, None, ms)` with a canonical mark set) -/
+theorem canChangeType_setNodeMarkup_applies (S : Schema) (doc : Node) (pos : Nat) (ty : TypeId) (a : Attrs)
+    (ms : Marks) (r : RPos) (tyN : TypeId) (aN : Attrs) (mN : Marks) (kidsN : List Node)
+    (hdoc : C01.IsElem doc) (hv : C01.Valid S doc) (hn : fnorm doc.kids = true)
+    (hr : doc.resolve pos = some r)
+    (hnode : r.parent.kids[r.index r.depth]? = some (.elem tyN aN mN kidsN))
+    (hcan : canonicalMarks S ms = true)
+    (hg : changeTypeGuard S doc pos ty ms = true)
+    (hc : canChangeType S doc pos ty = some true) :
+    doc.nodeAt pos = .ok (some (.elem tyN aN mN kidsN)) ∧
+    ∃ doc', S.apply (retypeStep pos (pos + (Node.elem tyN aN mN kidsN).size) (.elem ty a ms [])) doc = .ok doc' ∧
+      C01.Valid S doc' := by
+  have R := resolve_resolved hr
+  simp only [changeTypeGuard, hr, hnode, Bool.and_eq_true] at hg
+  have hg1 : S.validContent ty kidsN = true := hg.1
+  have hg2 := hg.2
+  simp only [canChangeType, hr] at hc
+  have hto : r.textOffset = 0 := by
+    apply Classical.byContradiction
+    intro ho
+    obtain ⟨s, m, hs, _⟩ := R.in_text ho
+    rw [hs] at hnode
+    simp at hnode
+  cases doc with
+  | text s m => simp [C01.IsElem, Node.isLeaf] at hdoc
+  | leaf t a' m => simp [C01.IsElem, Node.isLeaf] at hdoc
+  | elem ty0 a0 m0 K =>
+    have hn' : fnorm K = true := by simpa [Node.kids] using hn
+    obtain ⟨tyP, aP, mP, ctx, eP, hl⟩ := Resolved.lvl hr hn' r.depth (Nat.le_refl _)
+    obtain ⟨hsplit, hidx⟩ := list_split_at _ _ _ hnode
+    have E := R.entry r.depth (Nat.le_refl _)
+    have hpe : (r.entry r.depth).pos = r.start r.depth + fsize (r.parent.kids.take (r.index r.depth)) := E.pos_eq
+    have hple := E.pos_le
+    have hpos : pos = r.start r.depth + fsize (r.parent.kids.take (r.index r.depth)) := by
+      unfold RPos.textOffset at hto
+      rw [R.pos_eq] at hto
+      omega
+    have hty : S.tyOf r.parent = tyP := by
+      show S.tyOf (r.node r.depth) = tyP
+      rw [eP]; rfl
+    have hplen : (r.parent.kids.take (r.index r.depth)).length = r.index r.depth := by
+      rw [List.length_take]; omega
+    have hl' : Lvl ty0 K (r.start r.depth) r.depth tyP
+        (r.parent.kids.take (r.index r.depth) ++ .elem tyN aN mN kidsN :: r.parent.kids.drop (r.index r.depth + 1))
+        ctx := by
+      rw [← hsplit]; exact hl
+    have hnL := fnormKids_of_fnorm (hl'.norm hn')
+    simp only [fnormKids_append, Bool.and_eq_true] at hnL
+    have hcr : S.canReplaceWith tyP
+        (r.parent.kids.take (r.index r.depth) ++ .elem tyN aN mN kidsN :: r.parent.kids.drop (r.index r.depth + 1))
+        (r.parent.kids.take (r.index r.depth)).length ((r.parent.kids.take (r.index r.depth)).length + 1) ty []
+        = some true := by
+      unfold Schema.nodeCanReplaceWith at hc
+      split at hc
+      · simp at hc
+      · rw [← hsplit, hplen, ← hty]; exact hc
+    rw [hty] at hg2
+    obtain ⟨hsl, hins, hap⟩ := retype_applies S ty0 a0 m0 K hv hn' tyN aN mN kidsN hl' ty a ms hcr hg1 hg2
+    rw [← hpos] at hsl hap
+    have hnat : (Node.elem ty0 a0 m0 K).nodeAt pos = .ok (some (.elem tyN aN mN kidsN)) := by
+      rw [hpos]
+      exact nodeAtKids_lvl hl' _ _ _ rfl hnL.1
+    refine ⟨hnat, _, by simpa [Node.size_elem] using hap, ?_⟩
+    have hckN : S.checkKids kidsN = true := by
+      have hpv := path_valid S R hv r.depth (Nat.le_refl _)
+      have hcn := checkNode_child S r.parent (.elem tyN aN mN kidsN) hpv (List.mem_of_getElem? hnode)
+      simp only [checkNode_elem, Bool.and_eq_true] at hcn
+      exact hcn.2
+    refine C01.apply_valid S _ _ _ hv ?_ hap
+    intro gap ins h1 h2
+    rw [hsl] at h1
+    simp only [Except.ok.injEq] at h1
+    subst h1
+    rw [hins] at h2
+    simp only [Except.ok.injEq, Option.some.injEq] at h2
+    subst h2
+    simp [openValid, rightOpenValid, checkNode_elem, hg1, hcan, hckN]
+
+/-- a non-trivial instance of all hypotheses: the blockquote of `liftDoc = doc(blockquote(p("a")))` keeps its type (a
+    change of attributes or marks only) — `can_change_type(doc, 0, blockquote)` -/
+example : canChangeType exSchema liftDoc 0 1 = some true ∧ changeTypeGuard exSchema liftDoc 0 1 [] = true := ⟨rfl, rfl⟩
+example : ∃ doc', exSchema.apply (retypeStep 0 5 (.elem 1 [] [] [])) liftDoc = .ok doc' ∧ C01.Valid exSchema doc' :=
+  (canChangeType_setNodeMarkup_applies exSchema liftDoc 0 1 [] [] ((liftDoc.resolve 0).get rfl) 1 [] []
+    [.elem 2 [] [] [.text [97] []]] rfl rfl rfl (Option.some_get _).symm rfl rfl rfl rfl).2
+
+/-- the guard is needed: in `exDoc = doc(blockquote(p("a"), p("b")))` the first paragraph (position 1) may become a
+    blockquote as far as `can_change_type` looks (`blockquote: block+` takes a blockquote there), but a blockquote does
+    not accept text -/
+theorem canChangeType_needs_guard : canChangeType exSchema exDoc 1 1 = some true ∧
+    changeTypeGuard exSchema exDoc 1 1 [] = false ∧
+    exSchema.apply (retypeStep 1 4 (.elem 1 [] [] [])) exDoc = .error .failed := by
+  refine ⟨rfl, rfl, ?_⟩
+  have hc1 : contentBetween exDoc 1 2 = some false :=
+    contentBetween_closesOpens _ _ _ (by rfl) (by omega) (by decide) (by rfl)
+  have hc2 : contentBetween exDoc 3 4 = some false :=
+    contentBetween_closesOpens _ _ _ (by rfl) (by omega) (by decide) (by rfl)
+  have hs : exDoc.slice 2 3 = .ok ⟨[.text [97] []], 0, 0⟩ := by
+    simp [Node.slice, exDoc, Node.kids, sliceKids, inRange, sliceScan, sliceHere, fcut, fcutLoop, depthAt, cutText]
+  have hcr : exSchema.canReplace 1 [] 0 0 [.text [97] []] 0 1 = some false := by decide
+  have hi : Slice.insertAt exSchema ⟨[.elem 1 [] [] []], 0, 0⟩ 1 [.text [97] []] = .ok none := by
+    simp [Slice.insertAt, insertInto, flatInsert, hcr]
+  simp [retypeStep, Schema.apply, hc1, hc2, hs, hi]
 
 /-! ### INSERT-END -/
 
